@@ -258,6 +258,7 @@ pub fn run_profile(a: &RunArgs, profile: &str, exe: &str, replay_dir: &str) -> P
             }
             Ok(Msg::Eof(k)) => {
                 let status = ws[k].child.wait().expect("wait");
+                remove_worker_tmp(ws[k].child.id());
                 ws[k].alive = false;
                 if ws[k].done && (status.success() || truncated) {
                     active -= 1;
@@ -474,6 +475,7 @@ pub fn exec_file_in_child(exe: &str, path: &str, timeout: Duration) -> Result<Op
     };
     let stdout = ho.join().unwrap_or_default();
     let stderr = he.join().unwrap_or_default();
+    remove_worker_tmp(child.id());
     let plan_prop = || -> String {
         std::fs::read_to_string(path)
             .ok()
@@ -534,6 +536,13 @@ pub fn exec_file_in_child(exe: &str, path: &str, timeout: Duration) -> Result<Op
         msg: crate::plan::normalise(&msg),
         detail,
     }))
+}
+
+/// A worker that was killed (watchdog, violation budget) or died cannot remove its own scratch
+/// directory of temp files; its supervisor does.
+pub fn remove_worker_tmp(pid: u32) {
+    let dir = std::env::temp_dir().join(format!("asesim-{}", pid));
+    let _ = std::fs::remove_dir_all(dir);
 }
 
 pub fn cleanup_child_tmp() {
